@@ -218,12 +218,18 @@ _ZONES = None
 
 
 def drop_unknown_zones(n):
-    """hszinc deliberately keeps the numeric offset and drops a zone name it does not know (lenient, not a mis-parse):
-    the reference side forgets zone names no Olson zone ends with."""
+    """hszinc deliberately keeps the numeric offset and drops a zone name it does not know (lenient, not a mis-parse).  A name is
+    pinned only when it is an official Haystack zone name (the published list, read as data) that ends an Olson zone of this host;
+    any other name (an invented one, an Olson alias such as Katmandu that Haystack does not list) is forgotten on BOTH sides."""
     global _ZONES
     if _ZONES is None:
         import pytz
         _ZONES = set(z.rsplit('/', 1)[-1] for z in pytz.all_timezones)
+        try:
+            from hszinc import zoneinfo as _zi
+            _ZONES &= set(_zi.HAYSTACK_TIMEZONES)
+        except Exception:  # noqa
+            pass
     k = n[0]
     if k == 'dt':
         edge = not (-62100000000000000 < n[1] < 253370000000000000)   # within a year of 0001-01-01 / 9999-12-31: conversion may overflow
@@ -307,7 +313,7 @@ def judge_document(hs, text, st, origin, case):
         st.count('lenient_accepts')
         return 'lenient-accept'
     try:
-        obs = [O.observe_grid(g, hs) for g in got]
+        obs = [drop_unknown_zones(O.observe_grid(g, hs)) for g in got]
     except Exception as e:  # noqa
         st.fail('parse-result-unobservable', sig, case, {'document': text[:300], 'exc': repr(e)[:200]})
         return 'unobservable'
@@ -359,6 +365,31 @@ def mutant_task(items, alpha_name, splice):
     return st
 
 
+# well-formed scalars of every kind (both versions where legal): their one-step mutation closure goes through the scalar API
+SCALAR_SEEDS = ['C(1.5,-2)', 'C(12,34.5)', '@a-b:c "d e"', '"a\\nb$c"', '`http://x/y?z=1`', '-1.5e3kW', '12_000.5', '2020-02-29', '12:34:56.789',
+                '2020-02-29T12:34:56.5+05:45 Kathmandu', '2020-02-29T12:34:56Z UTC', '2020-02-29T12:34:56-03:30', 'Bin(text/plain)', 'Foo("x")', 'hex("dead")',
+                '[1, "a", C(1,2)]', '{a b:1 c:"x"}', '<<\nver:"3.0"\na\n1\n>>', '[{a:[1]}, @r "d"]', 'NA', 'INF', '-INF', 'NaN', 'T']
+SCALAR_ALPHA = list('"\\`,:()[]{}<>@ 0a.-TZ+%') + ['\n']
+
+
+def scalar_mutant_task(items):
+    import hszinc as hs
+    signal.signal(signal.SIGALRM, _alarm)
+    st = Stats()
+    for si in items:
+        seed = SCALAR_SEEDS[si]
+        for ver in ('3.0', '2.0'):
+            judge_scalar(hs, seed, ver, st, 'scalar-seed')
+        seen = set()
+        for (kind, pos, c), text in mutants(seed, SCALAR_ALPHA, False):
+            if text in seen:
+                continue
+            seen.add(text)
+            for ver in ('3.0', '2.0'):
+                judge_scalar(hs, text, ver, st, 'scalar-mutation:' + kind)
+    return st
+
+
 def token_task(strings):
     import hszinc as hs
     from hszinc.zincparser import ZincParseException
@@ -406,7 +437,7 @@ def judge_scalar(hs, s, ver, st, origin):
             st.count('lenient_accepts')
             return
         try:
-            obs = O.observe(v, hs)
+            obs = drop_unknown_zones(O.observe(v, hs))
         except Exception:  # noqa
             return
         d = N.same(ref, obs, 'exact')
@@ -547,6 +578,10 @@ def run(ctx):
     seeded_rng(ctx.seed, 'c09t').shuffle(toks)
     for part in pmap(token_task, [(c,) for c in chunks(toks, ctx.jobs * 4)], ctx.jobs):
         st.merge(part)
+    sitems = list(range(len(SCALAR_SEEDS)))
+    seeded_rng(ctx.seed, 'c09s').shuffle(sitems)
+    for part in pmap(scalar_mutant_task, [(c,) for c in chunks(sitems, len(sitems))], ctx.jobs):
+        st.merge(part)
     env_and_semantic(st)
     version_table_stress(st)
     ex = st.c.get('executions', 0)
@@ -556,13 +591,13 @@ def run(ctx):
         'stats': st, 'exhaustive': True,
         'rule': 'complete one-step mutation closure of %d seed documents over a %d-symbol alphabet (delete, truncate, replace, insert at every '
                 'offset%s), every string of length <= %d over a 12-token alphabet as whole document, as 3.0 and 2.0 grid body and as scalar under '
-                'both versions, %d semantically broken or odd scalars alone / in metadata / in a cell, every escape form of both quoted literals through the scalar API, '
+                'both versions, the same one-step mutation closure of %d well-formed scalars of every kind (%d-symbol alphabet) through the scalar API under both versions, %d semantically broken or odd scalars alone / in metadata / in a cell, every escape form of both quoted literals through the scalar API, '
                 'runs of 40 and 400 copies of 16 tokens in unterminated / unbalanced places (termination), 3.0-only constructs in nested grids that declare a pre-3.0 '
                 'version (3 versions x 5 kinds x 4 positions), a version-table stress, and 3 stdout environments on the error path; '
                 'distinct = distinct text; a case is non-trivial when it differs from its seed' % (
                     len(SEEDS), len(ALPHA_QUICK if ctx.quick else ALPHA_FULL), '' if ctx.quick else ', every splice of two bracketed spans',
-                    3 if ctx.quick else 4, len(BROKEN_SCALARS)),
-        'coverage': {'bounds': {'seed_documents': len(SEEDS), 'alphabet': alpha_name, 'token_strings': len(toks),
+                    3 if ctx.quick else 4, len(SCALAR_SEEDS), len(SCALAR_ALPHA), len(BROKEN_SCALARS)),
+        'coverage': {'bounds': {'seed_documents': len(SEEDS), 'alphabet': alpha_name, 'scalar_seeds': len(SCALAR_SEEDS), 'scalar_alphabet': len(SCALAR_ALPHA), 'token_strings': len(toks),
                                 'lenient_accepts': st.c.get('lenient_accepts', 0)}},
         'assumptions': ['"definitely broken" is decided by a sound but incomplete structural scanner (header, quote/backtick balance with legal '
                         'escapes only, bracket balance outside strings, 3.0 brackets under a pre-3.0 version, first column name); texts hszinc '
